@@ -7,8 +7,10 @@ import (
 	"errors"
 	"fmt"
 	"io"
+	"os"
 	"strconv"
 	"strings"
+	"sync"
 	"testing"
 	"testing/synctest"
 	"time"
@@ -702,6 +704,7 @@ func TestVerif_C24_Errors(t *testing.T) {
 		c24Evaluate(r, c)
 		return
 	}
+	c24StartWatchdog(r)
 	cases := c24Cases(r.Thorough())
 	if sh, _ := r.Shard(); sh == 0 {
 		r.Set(P, "cases_total", len(cases))
@@ -714,8 +717,10 @@ func TestVerif_C24_Errors(t *testing.T) {
 			r.Cap(P, "time budget")
 			break
 		}
+		c24WatchCase(c.String(), c)
 		c24Evaluate(r, c)
 	}
+	c24WatchCase("", nil)
 }
 
 func c24Evaluate(r *vk.Run, c c24Case) {
@@ -752,4 +757,40 @@ func c24Evaluate(r *vk.Run, c c24Case) {
 	case "picker/status:3/unary/ff", "cfgsel/status:9/stream/wfr", "creds-call/plain/unary/ff", "wire/rst:7@p0/unary/ff", "wire/trl:grpc-status=99@p1/stream/ff", "dialer/http1-reply/unary/ff":
 		r.Sample(P, map[string]any{"case": c, "name": c.String(), "outcome": res.Outcome, "trace": res.Trace})
 	}
+}
+
+// c24Watch turns a history that cannot reach quiescence (a goroutine parked on
+// a non-durable primitive such as a mutex held across a wait, or a zero-time
+// livelock) into a verdict instead of a worker killed by the driver's timeout:
+// a goroutine OUTSIDE the bubbles (real clock) watches the current case.
+type c24WatchState struct {
+	mu    sync.Mutex
+	name  string
+	c     any
+	since time.Time
+}
+
+var c24Watched c24WatchState
+
+const c24HangLimit = 150 * time.Second // real time; a history normally takes milliseconds
+
+func c24WatchCase(name string, c any) {
+	c24Watched.mu.Lock()
+	c24Watched.name, c24Watched.c, c24Watched.since = name, c, time.Now()
+	c24Watched.mu.Unlock()
+}
+
+func c24StartWatchdog(r *vk.Run) {
+	go func() {
+		for {
+			time.Sleep(time.Second)
+			c24Watched.mu.Lock()
+			name, c, since := c24Watched.name, c24Watched.c, c24Watched.since
+			c24Watched.mu.Unlock()
+			if name != "" && time.Since(since) > c24HangLimit {
+				r.Violation("C24", "hang: "+name, fmt.Sprintf("the history did not reach quiescence within %v of real time: some goroutine is neither runnable-to-completion nor durably blocked (e.g. parked on a mutex that is held across a timer wait), so virtual time cannot advance and the call never ends", c24HangLimit), c)
+				os.Exit(3)
+			}
+		}
+	}()
 }
